@@ -76,6 +76,26 @@ func main() {
 			seed = n
 		}
 	}
+	if replay != "" && p.Custom != nil {
+		if p.CustomReplay == nil {
+			fmt.Println("CHECK-ERROR property has no replay function")
+			os.Exit(2)
+		}
+		b, err := os.ReadFile(replay)
+		if err != nil {
+			fmt.Println("CHECK-ERROR", err)
+			os.Exit(2)
+		}
+		var rf struct {
+			Case json.RawMessage `json:"case"`
+		}
+		json.Unmarshal(b, &rf)
+		bin := self
+		if p.Race {
+			bin = self + "-race"
+		}
+		os.Exit(mon.RunCustomReplay(p, rf.Case, bin, replay))
+	}
 	if replay != "" {
 		// Run the replay in a child so that a hang or crash cannot take the
 		// reporting process down.
